@@ -43,10 +43,12 @@ def agreeS (env : Env) (renv : REnv) : Nat → RTy → Ty → Bool
         | .byteBuf, .vec ee => isBlobTy env (.vec ee)
         | .opt t', .opt e2 => agreeS env renv k t' e2
         | .seq t', .vec ee =>
-          agreeS env renv k t' ee && !(isByte renv (resolveDepth renv) t') && !(isBlobTy env (.vec ee)) &&
-            (match ee with
-             | .prim p => (primSize p).isNone || (acceptsPrimitive renv (resolveDepth renv) t' p == some true)
-             | _ => true)
+          agreeS env renv k t' ee &&
+            ((isByte renv (resolveDepth renv) t' && isBlobTy env (.vec ee)) ||
+             (!(isByte renv (resolveDepth renv) t') && !(isBlobTy env (.vec ee)) &&
+              (match ee with
+               | .prim p => (primSize p).isNone || (acceptsPrimitive renv (resolveDepth renv) t' p == some true)
+               | _ => true)))
         | .strct fs, .record efs =>
           (fs.select (.named "_")).isNone &&
             efs.toList.all fun p => match fs.select p.1 with
@@ -1124,6 +1126,56 @@ theorem bulk_sim (renv : REnv) (t' : RTy) (p : Prim) (n : Nat) (s2 : St) (hg2 : 
       rw [show (fun st => rd (decPrim p) st) = rd (decPrim p) from rfl, this]
       exact SimN.of_fine_vec _ (fine_iterV_rd (decPrim p) n s2 hg2)
 
+/-! ### byte vectors -/
+
+theorem decPrim_nat8_cons (b : UInt8) (rest : Bytes) : decPrim .nat8 (b :: rest) = .ok (.nat8 b.toNat, rest) := by
+  simp [decPrim, readFixed, takeN, Outcome.map, leVal]
+
+theorem decPrim_nat8_nil : decPrim .nat8 [] = .err .eof := by
+  simp [decPrim, readFixed, takeN, Outcome.map]
+
+/-- `n` bytes read one by one are the first `n` bytes of the input -/
+theorem iterV_bytes : ∀ (n : Nat) (s : St), iterV (fun st => rd (decPrim .nat8) st) n s =
+    (if n ≤ s.input.length then .ok ((s.input.take n).map fun x => Val.nat8 x.toNat) (inp s (s.input.drop n)) else .err .eof) := by
+  intro n
+  induction n with
+  | zero => intro s; simp only [iterV, Nat.zero_le, if_true, List.take_zero, List.map_nil, List.drop_zero, inp_self]
+  | succ n ih =>
+    intro s
+    unfold iterV
+    cases hi : s.input with
+    | nil =>
+      have : rd (decPrim .nat8) s = .err .eof := by unfold rd; rw [hi, decPrim_nat8_nil]
+      rw [this]
+      simp [R.bind]
+    | cons b rest =>
+      have : rd (decPrim .nat8) s = .ok (.nat8 b.toNat) (inp s rest) := by unfold rd; rw [hi, decPrim_nat8_cons]; rfl
+      rw [this]
+      simp only [R.bind, ih (inp s rest), inp_input, List.length_cons, Nat.add_le_add_iff_right]
+      by_cases hle : n ≤ rest.length
+      · simp only [hle, if_true, R.map, R.bind, List.take_succ_cons, List.map_cons, List.drop_succ_cons, inp_inp]
+      · simp only [hle, if_false, R.map, R.bind]
+
+theorem isByte_accepts (renv : REnv) : ∀ (d : Nat) (t : RTy), isByte renv d t = true →
+    acceptsPrimitive renv d t .nat8 = some true := by
+  intro d
+  induction d with
+  | zero => intro t h; simp [isByte] at h
+  | succ d ih =>
+    intro t h
+    cases t with
+    | prim q =>
+      cases q <;> simp [isByte] at h
+      simp [acceptsPrimitive]
+    | newtype t' => simp only [isByte] at h; simp only [acceptsPrimitive]; exact ih t' h
+    | ref x =>
+      simp only [isByte] at h
+      simp only [acceptsPrimitive]
+      cases hf : renv.find x with
+      | none => rw [hf] at h; simp at h
+      | some t' => rw [hf] at h; exact ih t' h
+    | _ => simp [isByte] at h
+
 /-- elements read one by one on both sides -/
 theorem elems_sim (rec : RTy → Flags → Ty → Ty → St → NR) (f : Flags → St → NR) (g : St → R Val) (F : Flags)
     (h : ∀ fl st, (fl = F ∨ fl = Flags.clear) → Good2 st → SimN fl (f fl st) (g (up st)))
@@ -2128,6 +2180,258 @@ theorem map_sim (mk : String → NR) (env : Env) (renv : REnv) (k m : Nat) (rec 
                 · exact SimN.starvedR _ _
                 · exact Or.inr (Or.inr ⟨rfl, rfl, rfl, rfl⟩)
 
+/-- with enough budget, `nat8` on the wire at an expected type that unfolds to `nat8` is one byte read -/
+theorem deAny_nat8 (env : Env) (ee : Ty) (st : St) (hu : Unmetered st) (hee : Sub.traceFull env ee = some (.prim .nat8)) :
+    deAny env .idl (env.length + 3) (.prim .nat8) ee st = rd (decPrim .nat8) st := by
+  rw [deAny_unfold_eq env .idl (env.length + 3) (.prim .nat8) ee (.prim .nat8) st hu (Nat.le_refl _) hee]
+  rw [deAny_prim_prim]
+  simp only [deAnyBody, dePrimExact, and_self, if_true]
+  rw [addCost_unmetered_ok st hu]
+  rfl
+
+/-- … and any other wire type is a subtype failure -/
+theorem deAny_nat8_mismatch (env : Env) (wire ee : Ty) (st : St) (hu : Unmetered st)
+    (hee : Sub.traceFull env ee = some (.prim .nat8)) (hw : Sub.traceFull env wire = some wire) (hne : wire ≠ .prim .nat8) :
+    deAny env .idl (env.length + 3) wire ee st = .sub none none := by
+  rw [deAny_unfold_eq env .idl (env.length + 3) wire ee (.prim .nat8) st hu (Nat.le_refl _) hee]
+  rw [deAny_succ, unroll_char env _ wire (.prim .nat8) st hu]
+  have h1 : traceAt env (env.length + 2) (.prim .nat8) = some (.prim .nat8) := by simp [traceAt, Sub.isName]
+  have h2 : traceAt env (env.length + 2) wire = some wire := by
+    unfold traceAt
+    split
+    · exact hw
+    · rfl
+  rw [h1, h2]
+  simp only [rbind_ok, deAnyBody, dePrimExact, hne, and_false, if_false]
+  simp only [subErr]; rw [hu.1, hu.2]
+
+theorem iterV_congr_unmetered (g h : St → R Val) (hgh : ∀ st, Unmetered st → g st = h st)
+    (hpres : ∀ st v st', Unmetered st → h st = .ok v st' → Unmetered st') :
+    ∀ (n : Nat) (st : St), Unmetered st → iterV g n st = iterV h n st := by
+  intro n
+  induction n with
+  | zero => intro st _; rfl
+  | succ n ih =>
+    intro st hu
+    unfold iterV
+    rw [hgh st hu]
+    cases hh : h st with
+    | ok v st' => simp only [R.bind]; rw [ih st' (hpres st v st' hu hh)]
+    | sub _ _ => rfl
+    | err _ => rfl
+    | panic _ => rfl
+
+theorem rd_unmetered' {α : Type} (f : Bytes → Outcome (α × Bytes)) (st : St) (v : α) (st' : St) (hu : Unmetered st)
+    (h : rd f st = .ok v st') : Unmetered st' := by
+  unfold rd at h
+  cases hf : f st.input with
+  | ok x => obtain ⟨a, r⟩ := x; rw [hf] at h; simp only [R.ok.injEq] at h; rw [← h.2]; exact hu
+  | err _ => rw [hf] at h; simp at h
+  | panic _ => rw [hf] at h; simp at h
+
+/-- **`Vec<u8>` and its relatives**: the native sequence reader at a byte element type against the untyped blob reader -/
+theorem bytes_sim (env : Env) (renv : REnv) (k : Nat) (rec : RTy → Flags → Ty → Ty → St → NR)
+    (hrec : SimAt env renv k rec) (hse : SortedEnv env) (t' : RTy) (ww ee : Ty) (s : St) (hg : Good2 s)
+    (ha : agreeS env renv k t' ee = true) (hsw : srt ww = true) (hby : isByte renv (resolveDepth renv) t' = true)
+    (hee : Sub.traceFull env ee = some (.prim .nat8)) :
+    SimN Flags.clear ((nVecCase env renv k rec .all t' Flags.clear ww ee s).map fun q => (seqVal true q.1, Flags.clear))
+      (deBlobCase env (.vec ww) (up s)) := by
+  unfold nVecCase
+  cases h1 : env.trace k ww with
+  | none => exact SimN.starvedL _ _
+  | some wire =>
+    simp only []
+    have hwfull := Sub.traceFull_of_trace env k ww wire h1
+    have hwself : Sub.traceFull env wire = some wire := by
+      unfold Sub.traceFull
+      exact Check.trace_nonvar env _ wire (Wire.trace_not_var env _ ww wire hwfull)
+    have hsubs : ∀ st : St, Good2 st → (subErr (up st) : R Val) = .sub none none := by
+      intro st h; simp only [subErr, up]; rw [h.2.1, h.2.2]
+    have hswire : srt wire = true := srt_trace env hse k ww wire hsw h1
+    -- the generic element, on both sides
+    have hgen : ∀ fl st, (fl = Flags.clear ∨ fl = Flags.clear) → Good2 st →
+        SimN fl (genericElem rec t' wire ee fl st)
+          ((fun st' => (addCost st' 3).bind fun _ s' => deAny env .idl (env.length + 3) wire ee s') (up st)) := by
+      intro fl st hfl hgs
+      have hcl : fl = Flags.clear := by rcases hfl with x | x <;> exact x
+      subst hcl
+      unfold genericElem
+      simp only []
+      rw [addCost_unmetered_ok st hgs.2, addCost_up st hgs.2]
+      simp only [R.bind]
+      exact hrec (env.length + 3) t' Flags.clear wire ee st ha (FlagsFit.clear wire ee) hgs hswire
+    have hbig : bigOf ee wire = none := by
+      cases ee with
+      | prim p =>
+        rw [traceFull_prim] at hee
+        simp only [Option.some.injEq, Ty.prim.injEq] at hee
+        subst hee
+        cases wire <;> rfl
+      | _ => rfl
+    unfold deBlobCase
+    by_cases hbw : isBlobTy env (.vec ww) = true
+    · -- bytes on the wire
+      have hwire : wire = .prim .nat8 := by
+        simp only [isBlobTy, hwfull] at hbw
+        cases wire with
+        | prim p => cases p <;> first | rfl | exact Bool.noConfusion hbw
+        | _ => exact Bool.noConfusion hbw
+      subst hwire
+      simp only [hbw, if_true, lenBytes]
+      rw [rd_up]
+      cases hr : rd readLenDe s with
+      | sub d q =>
+        have := (Fine.ofRd readLenDe s hg).2 d q hr
+        exact Or.inr (Or.inr ⟨this.1, this.2, this.1, this.2⟩)
+      | err x => exact Or.inr (Or.inr trivial)
+      | panic x => exact Or.inr (Or.inr trivial)
+      | ok n s2 =>
+        have hg2 := (Fine.ofRd readLenDe s hg).1 n s2 hr
+        simp only [lift, R.bind, R.map]
+        rw [addCost_up s2 hg2.2]
+        simp only []
+        have hunt : rd (takeN n) (up s2) =
+            (if n ≤ s2.input.length then .ok (s2.input.take n) (up (inp s2 (s2.input.drop n))) else .err .eof) := by
+          by_cases h : n ≤ s2.input.length
+          · simp only [rd, takeN, up_input, h, if_true]; rfl
+          · simp only [rd, takeN, up_input, h, if_false]
+        rw [hunt]
+        by_cases hlit : ee = .prim .nat8
+        · subst hlit
+          have hex : exactPrim (.prim .nat8) (.prim .nat8) = some .nat8 := by simp [exactPrim, primSize]
+          simp only [hex]
+          unfold bulkElems
+          simp only [primSize, Option.getD_some, isByte_accepts renv _ t' hby]
+          by_cases hov : n * (3 + 1) > usizeMax
+          · simp only [hov, if_true]; exact SimN.starvedL _ _
+          · simp only [hov, if_false]
+            rw [addCost_unmetered_ok s2 hg2.2]
+            simp only [R.bind]
+            by_cases hlen : n * 1 > s2.input.length
+            · simp only [hlen, if_true]
+              have : ¬ (n ≤ s2.input.length) := by omega
+              simp only [this, if_false]
+              exact SimN.err _ _ _
+            · simp only [hlen, if_false, runSeq]
+              rw [iterF_bulk, iterV_bytes]
+              have hle : n ≤ s2.input.length := by omega
+              simp only [hle, if_true, R.map, R.bind, seqVal, bytes_as_vals]
+              exact Or.inr (Or.inr ⟨rfl, rfl, hg2.1, hg2.2, Or.inl rfl⟩)
+        · -- the expected element type is a name for `nat8`: element by element
+          have hexn : exactPrim ee (.prim .nat8) = none := by
+            cases ee with
+            | prim p =>
+              rw [traceFull_prim] at hee
+              simp only [Option.some.injEq, Ty.prim.injEq] at hee
+              subst hee
+              exact absurd rfl hlit
+            | _ => rfl
+          simp only [hexn, hbig]
+          unfold genericElems
+          simp only [runSeq]
+          have hl := iter_sim (genericElem rec t' (.prim .nat8) ee)
+            (fun st' => (addCost st' 3).bind fun _ s' => deAny env .idl (env.length + 3) (.prim .nat8) ee s') Flags.clear hgen
+            n Flags.clear s2 (Or.inl rfl) hg2
+          have hiter : iterV (fun st' => (addCost st' 3).bind fun _ s' => deAny env .idl (env.length + 3) (.prim .nat8) ee s')
+              n (up s2) = iterV (fun st => rd (decPrim .nat8) st) n (up s2) :=
+            iterV_congr_unmetered _ _ (fun st hu => by
+              rw [addCost_unmetered_ok st hu]
+              simp only [R.bind]
+              exact deAny_nat8 env ee st hu hee)
+              (fun st v st' hu h => rd_unmetered' _ st v st' hu h) n (up s2) (up_unmetered s2 hg2.2)
+          rw [hiter, iterV_bytes] at hl
+          simp only [up_input] at hl
+          rcases hl with h | h | h
+          · rw [h]; exact SimN.starvedL _ _
+          · by_cases hle : n ≤ s2.input.length <;> simp [hle] at h
+          · cases hx : iterF (genericElem rec t' (.prim .nat8) ee) n Flags.clear s2 with
+            | ok q s1 =>
+              obtain ⟨vs, f1⟩ := q
+              rw [hx] at h
+              by_cases hle : n ≤ s2.input.length
+              · simp only [hle, if_true] at h ⊢
+                obtain ⟨e1, e2, e3, _⟩ := h
+                subst e1
+                simp only [R.map, R.bind, seqVal, bytes_as_vals, if_true]
+                refine Or.inr (Or.inr ⟨rfl, ?_, e3.1, e3.2, Or.inl rfl⟩)
+                rw [← e2]; rfl
+              · simp only [hle, if_false] at h
+            | sub d q =>
+              rw [hx] at h
+              by_cases hle : n ≤ s2.input.length <;> simp only [hle, if_true, if_false] at h
+            | err x =>
+              rw [hx] at h
+              by_cases hle : n ≤ s2.input.length
+              · simp only [hle, if_true] at h
+              · simp only [hle, if_false, R.map, R.bind]; exact SimN.err _ _ _
+            | panic x =>
+              rw [hx] at h
+              by_cases hle : n ≤ s2.input.length <;> simp only [hle, if_true, if_false] at h
+    · -- something else on the wire: only the empty vector is a byte vector
+      have hbwf : isBlobTy env (.vec ww) = false := by
+        cases h : isBlobTy env (.vec ww) with
+        | true => exact absurd h hbw
+        | false => rfl
+      have hne : wire ≠ .prim .nat8 := by
+        intro h
+        subst h
+        simp [isBlobTy, hwfull] at hbwf
+      have hexn : exactPrim ee wire = none := by
+        cases ee with
+        | prim p =>
+          rw [traceFull_prim] at hee
+          simp only [Option.some.injEq, Ty.prim.injEq] at hee
+          subst hee
+          cases wire with
+          | prim q =>
+            simp only [exactPrim]
+            have : ¬ (Prim.nat8 = q) := by intro h; subst h; exact hne rfl
+            simp [this]
+          | _ => rfl
+        | _ => rfl
+      simp only [hbwf, Bool.false_eq_true, if_false, hexn, hbig]
+      rw [rd_up]
+      cases hr : rd readLenDe s with
+      | sub d q =>
+        have := (Fine.ofRd readLenDe s hg).2 d q hr
+        exact Or.inr (Or.inr ⟨this.1, this.2, this.1, this.2⟩)
+      | err x => exact Or.inr (Or.inr trivial)
+      | panic x => exact Or.inr (Or.inr trivial)
+      | ok n s2 =>
+        have hg2 := (Fine.ofRd readLenDe s hg).1 n s2 hr
+        simp only [lift, R.bind, R.map]
+        unfold genericElems
+        simp only [runSeq]
+        cases n with
+        | zero =>
+          simp only [iterF, ne_eq, not_true_eq_false, if_false, R.map, R.bind, seqVal, bytesOfVals, if_true]
+          rw [addCost_up s2 hg2.2]
+          exact Or.inr (Or.inr ⟨rfl, rfl, hg2.1, hg2.2, Or.inl rfl⟩)
+        | succ n' =>
+          simp only [ne_eq, Nat.add_one_ne_zero, not_false_eq_true, if_true]
+          rw [hsubs s2 hg2]
+          have hl := iter_sim (genericElem rec t' wire ee)
+            (fun st' => (addCost st' 3).bind fun _ s' => deAny env .idl (env.length + 3) wire ee s') Flags.clear hgen
+            (n' + 1) Flags.clear s2 (Or.inl rfl) hg2
+          have hfirst : iterV (fun st' => (addCost st' 3).bind fun _ s' => deAny env .idl (env.length + 3) wire ee s')
+              (n' + 1) (up s2) = .sub none none := by
+            unfold iterV
+            rw [addCost_up s2 hg2.2]
+            simp only [R.bind]
+            rw [deAny_nat8_mismatch env wire ee (up s2) (up_unmetered s2 hg2.2) hee hwself hne]
+          rw [hfirst] at hl
+          rcases hl with h | h | h
+          · rw [h]; exact SimN.starvedL _ _
+          · simp at h
+          · cases hx : iterF (genericElem rec t' wire ee) (n' + 1) Flags.clear s2 with
+            | sub d q =>
+              rw [hx] at h
+              simp only [R.map, R.bind]
+              exact Or.inr (Or.inr ⟨h.1, h.2.1, rfl, rfl⟩)
+            | ok q s1 => rw [hx] at h; exact absurd h (by simp)
+            | err x => rw [hx] at h; exact absurd h (by simp)
+            | panic x => rw [hx] at h; exact absurd h (by simp)
+
 theorem agreeS_traces {env : Env} {renv : REnv} {k : Nat} {t : RTy} {e : Ty} (ha : agreeS env renv (k + 1) t e = true)
     (h1 : ∀ t', t ≠ .newtype t') (h2 : ∀ x, t ≠ .ref x) : ∃ e', Sub.traceFull env e = some e' := by
   cases ht : Sub.traceFull env e with
@@ -2595,18 +2899,80 @@ theorem deNBody_sim (mk : String → NR) (env : Env) (tl : Nat) (renv : REnv) (k
             (srt_traceFull env hse w _ hsw hw')
   | seq t' =>
     obtain ⟨e0, ht0⟩ := agreeS_traces ha (by simp) (by simp)
-    obtain ⟨ee, he0, hag, hnb, hnblob, hacc0⟩ : ∃ ee, e0 = .vec ee ∧ agreeS env renv k t' ee = true ∧
-        isByte renv (resolveDepth renv) t' = false ∧ isBlobTy env (.vec ee) = false ∧
-        (match ee with
-          | .prim p => (primSize p).isNone || (acceptsPrimitive renv (resolveDepth renv) t' p == some true)
-          | _ => true) = true := by
+    obtain ⟨ee, he0, hag, hshape⟩ : ∃ ee, e0 = .vec ee ∧ agreeS env renv k t' ee = true ∧
+        ((isByte renv (resolveDepth renv) t' = true ∧ isBlobTy env (.vec ee) = true) ∨
+         (isByte renv (resolveDepth renv) t' = false ∧ isBlobTy env (.vec ee) = false ∧
+          (match ee with
+            | .prim p => (primSize p).isNone || (acceptsPrimitive renv (resolveDepth renv) t' p == some true)
+            | _ => true) = true)) := by
       simp only [agreeS, ht0] at ha
       cases e0 with
       | vec ee =>
-        simp only [Bool.and_eq_true, Bool.not_eq_true'] at ha
-        exact ⟨ee, rfl, ha.1.1.1, ha.1.1.2, ha.1.2, ha.2⟩
+        simp only [Bool.and_eq_true, Bool.or_eq_true, Bool.not_eq_true'] at ha
+        refine ⟨ee, rfl, ha.1, ?_⟩
+        rcases ha.2 with h | h
+        · exact Or.inl h
+        · exact Or.inr ⟨h.1.1, h.1.2, h.2⟩
       | _ => simp at ha
     subst he0
+    have hcl : fl = Flags.clear := flags_clear_of env fl w e _ hf ht0 (by simp) (by simp) (by simp)
+    subst hcl
+    rcases hshape with ⟨hby, hblob⟩ | ⟨hnb, hnblob, hacc0⟩
+    · -- a byte vector
+      have hee : Sub.traceFull env ee = some (.prim .nat8) := by
+        simp only [isBlobTy] at hblob
+        cases h : Sub.traceFull env ee with
+        | none => rw [h] at hblob; simp at hblob
+        | some t =>
+          rw [h] at hblob
+          cases t with
+          | prim p => cases p <;> first | rfl | exact Bool.noConfusion hblob
+          | _ => exact Bool.noConfusion hblob
+      unfold deNBody
+      simp only [Bool.false_eq_true, if_false, rbind_ok]
+      rw [deAny_succ]
+      refine sim_unroll env k m _ w e s hg _ _ fun w' e' he' hw' => ?_
+      rw [ht0] at he'
+      simp only [Option.some.injEq] at he'
+      subst he'
+      simp only [deAnyBody, hblob, if_true]
+      rw [addCost_unmetered_ok s hg.2]
+      simp only [rbind_ok]
+      cases w' with
+      | vec ww =>
+        simp only [hby]
+        have := bytes_sim env renv k rec hrec hse t' ww ee s hg hag
+          (by have := srt_traceFull env hse w _ hsw hw'; simpa [srt] using this) hby hee
+        -- the flags a vector read returns are cleared
+        rcases this with h | h | h
+        · left
+          cases hx : nVecCase env renv k rec .all t' Flags.clear ww ee s <;> rw [hx] at h <;> simp [R.map, R.bind] at h ⊢
+          exact h
+        · exact Or.inr (Or.inl h)
+        · refine Or.inr (Or.inr ?_)
+          cases hx : nVecCase env renv k rec .all t' Flags.clear ww ee s with
+          | ok q s1 =>
+            obtain ⟨vs, f1⟩ := q
+            rw [hx] at h
+            cases hy : deBlobCase env (.vec ww) (up s) with
+            | ok v' s2 =>
+              rw [hy] at h
+              simp only [R.map, R.bind] at h ⊢
+              exact ⟨h.1, h.2.1, h.2.2.1, h.2.2.2.1, nVecCase_flags env renv k rec .all t' Flags.clear ww ee s vs f1 s1 hx⟩
+            | sub d q => rw [hy] at h; simp [R.map, R.bind] at h
+            | err x => rw [hy] at h; simp [R.map, R.bind] at h
+            | panic x => rw [hy] at h; simp [R.map, R.bind] at h
+          | sub d q =>
+            rw [hx] at h
+            cases hy : deBlobCase env (.vec ww) (up s) <;> rw [hy] at h <;> simp [R.map, R.bind] at h ⊢
+            exact h
+          | err x =>
+            rw [hx] at h
+            cases hy : deBlobCase env (.vec ww) (up s) <;> rw [hy] at h <;> simp [R.map, R.bind] at h ⊢
+          | panic x =>
+            rw [hx] at h
+            cases hy : deBlobCase env (.vec ww) (up s) <;> rw [hy] at h <;> simp [R.map, R.bind] at h ⊢
+      | _ => simp only [deBlobCase, isBlobTy, Bool.false_eq_true, if_false]; exact SimN.sub _ s hg.2
     have hacc : ∀ p, ee = .prim p → (primSize p).isSome → acceptsPrimitive renv (resolveDepth renv) t' p = some true := by
       intro p hp hs
       subst hp
@@ -2614,8 +2980,6 @@ theorem deNBody_sim (mk : String → NR) (env : Env) (tl : Nat) (renv : REnv) (k
       rcases hacc0 with h | h
       · rw [Option.isNone_iff_eq_none] at h; rw [h] at hs; simp at hs
       · exact h
-    have hcl : fl = Flags.clear := flags_clear_of env fl w e _ hf ht0 (by simp) (by simp) (by simp)
-    subst hcl
     unfold deNBody
     simp only [Bool.false_eq_true, if_false, rbind_ok]
     rw [deAny_succ]
